@@ -129,7 +129,10 @@ Definition fresh_iteration (f : frame) : frame :=
   {| f_name := f_name f; f_cancelled := f_cancelled f; f_restkilled := false |}.
 Definition frame_live (f : frame) : bool := negb (f_cancelled f) && negb (f_restkilled f).
 
-(* breakUpwards: proc.KillForks; proc.Done(); stop at the block called nm; else its parent *)
+(* breakUpwards: proc.KillForks; proc.Done(); stop at the block called nm; else its parent.
+   A name that no block of the current function has: every frame up to and including the function
+   is cancelled, then proc.Id == scope ends the walk with an error - the stack of a function
+   activation ends at the function, so the caller's frames are out of reach. *)
 Fixpoint brk_walk (nm : name) (st : list frame) : list frame :=
   match st with
   | [] => []
@@ -138,19 +141,32 @@ Fixpoint brk_walk (nm : name) (st : list frame) : list frame :=
 
 (* cmdContinue, after the first process: the walk arrives at a block from the last of its
    statements, all of which it has cancelled (proc.Done() along Next); the block itself is
-   cancelled too unless it is the one called nm *)
+   cancelled too unless it is the one called nm.  The outermost frame of a stack is the function
+   (proc.Id == scope): there the walk ends with the error "no block found named ... within the
+   scope of ..." before that process is cancelled, so nothing outside the function is touched. *)
 Fixpoint cont_up (nm : name) (st : list frame) : list frame :=
   match st with
   | [] => []
-  | f :: st' => if name_eqb (f_name f) nm then kill_rest f :: st' else kill f :: cont_up nm st'
+  | f :: st' =>
+      if name_eqb (f_name f) nm then kill_rest f :: st'
+      else match st' with
+           | [] => [kill_rest f]
+           | _ => kill f :: cont_up nm st'
+           end
   end.
 
 (* cmdContinue: if the block that directly contains `continue` is the one called nm, nothing
-   at all is cancelled (pinned by TestContinue0/1 of the test-suite) *)
+   at all is cancelled (pinned by TestContinue0/1 of the test-suite); neither is anything when
+   that block is the function itself and is not called nm (the scope error comes first) *)
 Definition cont_walk (nm : name) (st : list frame) : list frame :=
   match st with
   | [] => []
-  | f :: _ => if name_eqb (f_name f) nm then st else cont_up nm st
+  | f :: st' =>
+      if name_eqb (f_name f) nm then st
+      else match st' with
+           | [] => st
+           | _ => kill f :: cont_up nm st'
+           end
   end.
 
 (* cmdReturn: breakUpwards to the function, which is the outermost frame of the stack *)
@@ -212,8 +228,10 @@ Definition run_cancel (main : block) : list tok * Z :=
   (c_out r, c_exit r).
 
 (* ------------------------------------------------------------------ *)
-(* well-named programs: every break / continue names a block that encloses it inside the same
-   function, and a `continue` does not sit directly in the block it names (known finding 1).
+(* well-named programs: a `continue` does not sit directly in the block it names (known
+   finding 1) nor directly in the function body.  Nothing is asked of `break`, `return`, or of
+   the NAME of a continue: a name that no enclosing block of the current function has is the
+   error case of the real code (the function is abandoned, its caller carries on).
    encl: the names of the enclosing blocks of the current function, innermost first. *)
 Fixpoint in_names (nm : name) (l : list name) : bool :=
   match l with [] => false | x :: l' => name_eqb x nm || in_names nm l' end.
@@ -225,8 +243,8 @@ Fixpoint wn_stmt (encl : list name) (s : stmt) : bool :=
   | Foreach _ _ b => wn_block (NForeach :: encl) b
   | While _ _ b => wn_block (NWhile :: encl) b
   | Call f b => wn_block [NFunc f] b
-  | Break nm => in_names nm encl
-  | Continue nm => in_names nm encl && match encl with x :: _ => negb (name_eqb x nm) | [] => false end
+  | Break nm => true
+  | Continue nm => match encl with x :: _ :: _ => negb (name_eqb x nm) | _ => false end
   end
 with wn_block (encl : list name) (b : block) : bool :=
   match b with BNil => true | BCons s b' => wn_stmt encl s && wn_block encl b' end.
